@@ -25,6 +25,7 @@ type Cex struct {
 	Mode       string            `json:"mode"`
 	Backend    string            `json:"backend"`
 	Inputs     map[string]string `json:"inputs"`
+	Note       string            `json:"note,omitempty"`
 	Abstract   bool              `json:"abstract"` // model includes values chosen for contract/stub outputs
 }
 
@@ -39,7 +40,7 @@ func writeCex(path, prop string, r *ObRun, ob *Oblig) *Cex {
 	for _, k := range ks {
 		cx.Inputs[k] = ob.Model[k].String()
 	}
-	cx.Abstract = len(r.Uses) > 0 && !ob.Concrete
+	cx.Abstract = (len(r.Uses) > 0 || r.attr("cut", "") != "") && !ob.Concrete
 	cx.PkgName = r.Ld.pkgs[r.Dir.Pkg].Pkg.Name()
 	b, _ := json.MarshalIndent(cx, "", " ")
 	writeFile(path, string(b)+"\n")
@@ -57,7 +58,7 @@ func pkgDirOf(pkgPath string) string {
 	return strings.TrimPrefix(strings.TrimPrefix(pkgPath, modPath), "/")
 }
 
-func replayNative(cx *Cex, cexPath string) replayResult {
+func replayNative(cx *Cex, cexPath string, search int) replayResult {
 	tmp, err := os.MkdirTemp("", "voireplay")
 	if err != nil {
 		return replayResult{"error", err.Error()}
@@ -97,27 +98,50 @@ package %s
 
 import (
 	"fmt"
+	"os"
+	"strconv"
+	"strings"
 	"testing"
 
 	"%s"
 )
 
-func TestZZReplay(t *testing.T) {
+func zzRun(trial int) (res string) {
 	defer func() {
 		switch x := recover().(type) {
 		case nil:
-			fmt.Println("REPLAY: NOFAILURE")
+			res = "NOFAILURE"
 		case verif.Failure:
-			fmt.Println("REPLAY: REPRODUCED assertion:", x.Msg)
+			res = "REPRODUCED assertion: " + x.Msg
 		case verif.Skip:
-			fmt.Println("REPLAY: SKIP", x.Msg)
+			res = "SKIP " + x.Msg
 		default:
-			fmt.Println("REPLAY: PANIC", x)
+			res = fmt.Sprint("PANIC ", x)
 		}
 	}()
+	verif.StartTrial(trial, %d)
 	%s()
+	return
 }
-`, pkgName, verifPkgPath, cx.Harness)
+
+func TestZZReplay(t *testing.T) {
+	n, _ := strconv.Atoi(os.Getenv("VERIF_SEARCH"))
+	last := ""
+	for trial := 0; trial <= n; trial++ {
+		last = zzRun(trial)
+		if strings.HasPrefix(last, "REPRODUCED") || strings.HasPrefix(last, "PANIC") {
+			if trial > 0 {
+				if p := os.Getenv("VERIF_SEARCH_OUT"); p != "" {
+					os.WriteFile(p, []byte(verif.DumpTrial()), 0o644)
+				}
+				last += fmt.Sprintf(" (found by native search, trial %%d)", trial)
+			}
+			break
+		}
+	}
+	fmt.Println("REPLAY:", last)
+}
+`, pkgName, verifPkgPath, runSeed, cx.Harness)
 	testFile := filepath.Join(tmp, "replay_test.go")
 	os.WriteFile(testFile, []byte(testSrc), 0o644)
 	rep[filepath.Join(repoDir, pd, "zz_verif_replay_test.go")] = testFile
@@ -127,7 +151,8 @@ func TestZZReplay(t *testing.T) {
 	abs, _ := filepath.Abs(cexPath)
 	cmd := exec.Command("go", "test", "-vet=off", "-count=1", "-overlay", ovFile, "-tags", cx.Tags, "-run", "^TestZZReplay$", "-v", "./"+pd)
 	cmd.Dir = repoDir
-	cmd.Env = append(os.Environ(), "VERIF_REPLAY="+abs, "GOFLAGS=-mod=mod", "GOPROXY=off", "GOSUMDB=off", "GOTOOLCHAIN=local", "GOCACHE="+filepath.Join(os.TempDir(), "voiverif-gocache"))
+	searchOut := filepath.Join(tmp, "found.json")
+	cmd.Env = append(os.Environ(), "VERIF_REPLAY="+abs, fmt.Sprintf("VERIF_SEARCH=%d", search), "VERIF_SEARCH_OUT="+searchOut, "GOFLAGS=-mod=mod", "GOPROXY=off", "GOSUMDB=off", "GOTOOLCHAIN=local", "GOCACHE="+filepath.Join(os.TempDir(), "voiverif-gocache"))
 	done := make(chan struct{})
 	var out []byte
 	go func() { out, err = cmd.CombinedOutput(); close(done) }()
@@ -145,9 +170,21 @@ func TestZZReplay(t *testing.T) {
 			continue
 		}
 		switch {
-		case strings.HasPrefix(l, "REPLAY: REPRODUCED"):
+		case strings.HasPrefix(l, "REPLAY: REPRODUCED"), strings.HasPrefix(l, "REPLAY: PANIC"):
+			if b, err := os.ReadFile(searchOut); err == nil {
+				// the search found different inputs: store them in the counterexample file so that it replays exactly
+				var found struct {
+					Inputs map[string]string `json:"inputs"`
+				}
+				if json.Unmarshal(b, &found) == nil {
+					cx.Inputs = found.Inputs
+					cx.Note = "inputs found by native search anchored at the solver's model of the abstract obligation"
+					nb, _ := json.MarshalIndent(cx, "", " ")
+					os.WriteFile(cexPath, append(nb, 10), 0o644)
+				}
+			}
 			return replayResult{"reproduced", l}
-		case strings.HasPrefix(l, "REPLAY: PANIC"):
+		case strings.HasPrefix(l, "REPLAY: PANIC!"):
 			if cx.Kind == "panic" || cx.Kind == "bounds" {
 				return replayResult{"reproduced", l}
 			}
